@@ -138,4 +138,5 @@ static inline int ref_at_eof_is_clean(const struct ref_parser *r, unsigned *garb
 /* ---- representation invariant of the bit reader (B3) */
 #define BS_OK(bs) ((bs)->live <= 63u && ((bs)->live == 0 ? (bs)->buff == 0 : ((bs)->buff << (bs)->live) == 0))
 
+extern unsigned g_scan_again;
 #endif
